@@ -148,20 +148,59 @@ Proof.
   rewrite str_eqb_refl. reflexivity.
 Qed.
 
+Lemma mf_name_not_legacy t : mf_name t <> legacy_manifest_filename.
+Proof.
+  intros E. apply (f_equal (@length N)) in E. unfold mf_name, sanitize_id in E.
+  rewrite !app_length, map_length in E.
+  assert (L : (length manifest_filename_prefix + length manifest_filename_suffix > length legacy_manifest_filename)%nat)
+    by (vm_compute; lia).
+  lia.
+Qed.
+
+Lemma legacy_not_mf r r' : legacy_path r <> mf_path r'.
+Proof.
+  unfold legacy_path, mf_path. intros E. apply (f_equal last_comp) in E. rewrite !last_comp_app in E.
+  assert (E' : mf_name (rtarget r') = legacy_manifest_filename) by congruence.
+  apply mf_name_not_legacy in E'. exact E'.
+Qed.
+
 (* ---------- write_manifests at a root's own manifest path ---------- *)
 Definition is_nil {A} (l : list A) : bool := match l with [] => true | _ => false end.
+
+(* the condition under which write_target_manifests (re)writes a root's manifest *)
+Definition should_write (f : fs) (roots : list root) (D : list dfile) (pl : list change) (i : nat) (r : root) : bool :=
+  exists_at f (mf_path r) || negb (is_nil (per_root roots D i r)) || root_had_changes roots pl i || legacy_stale f r.
+
+Lemma legacy_stale_upd f r0 v r : mf_path r0 <> mf_path r ->
+  legacy_stale (upd f (mf_path r0) v) r = legacy_stale f r.
+Proof.
+  intros Hne. unfold legacy_stale, exists_at, read_manifest, chosen_manifest.
+  rewrite !upd_other; [reflexivity| |].
+  - intros X. apply (legacy_not_mf r r0). exact X.
+  - intros X. apply Hne. auto.
+Qed.
+
+Lemma legacy_stale_ext f g r :
+  f (mf_path r) = g (mf_path r) -> f (legacy_path r) = g (legacy_path r) -> legacy_stale f r = legacy_stale g r.
+Proof. intros E1 E2. unfold legacy_stale, exists_at, read_manifest, chosen_manifest. rewrite E1, E2. reflexivity. Qed.
+
+Lemma should_write_ext f g roots D pl i r :
+  f (mf_path r) = g (mf_path r) -> f (legacy_path r) = g (legacy_path r) ->
+  should_write f roots D pl i r = should_write g roots D pl i r.
+Proof. intros E1 E2. unfold should_write, exists_at. rewrite (legacy_stale_ext f g r E1 E2), E1. reflexivity. Qed.
 
 Lemma write_manifests_at rs : forall i roots D pl f j r,
   NoDup (map mf_path rs) -> nth_error rs j = Some r ->
   fst (write_manifests_from i rs roots D pl f) (mf_path r) =
-  if exists_at f (mf_path r) || negb (is_nil (per_root roots D (i + j) r)) || root_had_changes roots pl (i + j)
+  if should_write f roots D pl (i + j) r
   then Some (new_manifest r (per_root roots D (i + j) r)) else f (mf_path r).
 Proof.
+  unfold should_write.
   induction rs as [|r0 rs IH]; intros i roots D pl f j r Hnd Hn; [destruct j; discriminate|].
   inversion Hnd as [|? ? Hnotin Hnd']; subst. destruct j as [|j]; simpl in Hn.
   - inversion Hn; subst r0. rewrite Nat.add_0_r. cbn [write_manifests_from].
     change (match per_root roots D i r with [] => true | _ :: _ => false end) with (is_nil (per_root roots D i r)).
-    destruct (exists_at f (mf_path r) || negb (is_nil (per_root roots D i r)) || root_had_changes roots pl i) eqn:E.
+    destruct (exists_at f (mf_path r) || negb (is_nil (per_root roots D i r)) || root_had_changes roots pl i || legacy_stale f r) eqn:E.
     + pose proof (write_manifests_other rs (S i) roots D pl
                     (upd f (mf_path r) (Some (new_manifest r (per_root roots D i r)))) (mf_path r)) as Ho.
       destruct (write_manifests_from (S i) rs roots D pl _) as [f2 l]. simpl in *.
@@ -173,6 +212,7 @@ Proof.
     match goal with |- context [if ?b then _ else _] => destruct b eqn:E end.
     + pose proof (IH (S i) roots D pl (upd f (mf_path r0) (Some (new_manifest r0 (per_root roots D i r0)))) j r Hnd' Hn) as H.
       destruct (write_manifests_from (S i) rs roots D pl _) as [f2 l]. simpl in *. rewrite H.
+      rewrite legacy_stale_upd by exact Hne.
       unfold exists_at. rewrite !upd_other by (intros X; apply Hne; auto). reflexivity.
     + apply IH; auto.
 Qed.
@@ -364,7 +404,7 @@ Lemma deploy_manifests_exact st confirmed adopt flt w roots D pl w' i r :
   deploy_cmd st confirmed adopt flt w roots D = (pl, (OApplied, w')) ->
   wfD roots D -> wfM D (managed_for_plan w roots flt) -> nth_error roots i = Some r ->
   files w' (mf_path r) =
-  if exists_at (files w) (mf_path r) || negb (is_nil (per_root roots D i r)) || root_had_changes roots pl i
+  if should_write (files w) roots D pl i r
   then Some (new_manifest r (per_root roots D i r)) else None.
 Proof.
   intros H HD HM Hn. unfold deploy_cmd in H. inversion H as [[Hpl Hd]]. clear H.
@@ -373,28 +413,15 @@ Proof.
   rewrite (write_manifests_at roots 0 roots D pl _ i r) by (try apply HD; exact Hn). simpl.
   assert (E : fold_left apply_change pl (files w) (mf_path r) = files w (mf_path r)).
   { subst pl. eapply fold_at_manifest; eauto. apply mf_path_is_manifest. }
-  unfold exists_at. rewrite E.
-  destruct (files w (mf_path r)) eqn:Ef; simpl; [reflexivity|].
-  destruct (negb (is_nil (per_root roots D i r)) || root_had_changes roots pl i); reflexivity.
+  assert (E2 : fold_left apply_change pl (files w) (legacy_path r) = files w (legacy_path r)).
+  { subst pl. eapply fold_at_manifest; eauto. apply legacy_path_is_manifest. }
+  rewrite (should_write_ext _ (files w) roots D pl i r E E2). rewrite E.
+  destruct (should_write (files w) roots D pl i r) eqn:Es; [reflexivity|].
+  unfold should_write in Es. destruct (files w (mf_path r)) eqn:Ef; [|reflexivity].
+  unfold exists_at in Es. rewrite Ef in Es. simpl in Es. discriminate.
 Qed.
 
 (* ---------- the managed set after a successful deploy ---------- *)
-Lemma mf_name_not_legacy t : mf_name t <> legacy_manifest_filename.
-Proof.
-  intros E. apply (f_equal (@length N)) in E. unfold mf_name, sanitize_id in E.
-  rewrite !app_length, map_length in E.
-  assert (L : (length manifest_filename_prefix + length manifest_filename_suffix > length legacy_manifest_filename)%nat)
-    by (vm_compute; lia).
-  lia.
-Qed.
-
-Lemma legacy_not_mf r r' : legacy_path r <> mf_path r'.
-Proof.
-  unfold legacy_path, mf_path. intros E. apply (f_equal last_comp) in E. rewrite !last_comp_app in E.
-  assert (E' : mf_name (rtarget r') = legacy_manifest_filename) by congruence.
-  apply mf_name_not_legacy in E'. exact E'.
-Qed.
-
 Lemma latest_dr_app_last l x : kind_dr (sn_kind x) = true -> latest_dr (l ++ [x]) = Some x.
 Proof.
   intros K. induction l as [|y l IH]; simpl; [rewrite K; reflexivity|]. rewrite IH. reflexivity.
@@ -464,16 +491,19 @@ Section After.
   Lemma files_after_mf i r :
     nth_error roots i = Some r ->
     files w' (mf_path r) =
-    if exists_at (files w) (mf_path r) || negb (is_nil (per_root roots D i r)) || root_had_changes roots pl i
+    if should_write (files w) roots D pl i r
     then Some (new_manifest r (per_root roots D i r)) else None.
   Proof.
     intros Hn. unfold w'. rewrite apply_plan_files. unfold write_manifests.
     rewrite (write_manifests_at roots 0 roots D pl _ i r) by (try apply HD; exact Hn). simpl.
     assert (E : fold_left apply_change pl (files w) (mf_path r) = files w (mf_path r)).
     { eapply fold_at_manifest; eauto. apply mf_path_is_manifest. }
-    unfold exists_at. rewrite E.
-    destruct (files w (mf_path r)) eqn:Ef; simpl; [reflexivity|].
-    destruct (negb (is_nil (per_root roots D i r)) || root_had_changes roots pl i); reflexivity.
+    assert (E2 : fold_left apply_change pl (files w) (legacy_path r) = files w (legacy_path r)).
+    { eapply fold_at_manifest; eauto. apply legacy_path_is_manifest. }
+    rewrite (should_write_ext _ (files w) roots D pl i r E E2). rewrite E.
+    destruct (should_write (files w) roots D pl i r) eqn:Es; [reflexivity|].
+    unfold should_write in Es. destruct (files w (mf_path r)) eqn:Ef; [|reflexivity].
+    unfold exists_at in Es. rewrite Ef in Es. simpl in Es. discriminate.
   Qed.
 
   Lemma files_after_desired d : In d D -> files w' (dpath d) = Some (FBytes (dcontent d)).
@@ -494,15 +524,14 @@ Section After.
   Lemma managed_after tp :
     In tp (managed_for_plan w' roots flt) -> mem_key tp D = true \/ files w' (snd tp) = None.
   Proof.
-    intros H. apply in_managed_for_plan in H as [Hpass [[r [Hr Hin]]|[Hl [sn [Hs Hin]]]]].
+    intros H. apply in_managed_for_plan in H as [Hpass [[r [Hr Hin]]|[Hl [sn [Hs [Hin _]]]]]].
     - apply in_root_managed in Hin as [es [e (Hread & He & Hsafe & ->)]].
       pose proof (read_manifest_usable _ _ _ Hread) as Hch.
       destruct (In_nth_error_ex _ _ Hr) as [i Hn].
       apply chosen_manifest_spec in Hch as [Hmf|[Hmf Hleg]].
       + (* the preferred manifest: it was written by this deploy *)
         rewrite (files_after_mf i r Hn) in Hmf.
-        destruct (exists_at (files w) (mf_path r) || negb (is_nil (per_root roots D i r)) || root_had_changes roots pl i);
-          [|discriminate].
+        destruct (should_write (files w) roots D pl i r); [|discriminate].
         inversion Hmf as [Hes]. rewrite <- Hes in He.
         apply in_per_root in He as [d (Hd & Hb & ->)]. simpl.
         destruct (join_rel_of roots d i r Hb Hn) as (Hj & _ & Ht); [apply HD; exact Hd|].
@@ -511,7 +540,9 @@ Section After.
         rewrite files_after_manifest_path in Hleg
           by (try apply legacy_path_is_manifest; intros r' _ E; symmetry in E; revert E; apply legacy_not_mf).
         rewrite (files_after_mf i r Hn) in Hmf.
-        destruct (exists_at (files w) (mf_path r)) eqn:Ex; [simpl in Hmf; discriminate|].
+        destruct (should_write (files w) roots D pl i r) eqn:Es; [discriminate|].
+        unfold should_write in Es.
+        destruct (exists_at (files w) (mf_path r)) eqn:Ex; [simpl in Es; discriminate|].
         assert (Hold : read_manifest (files w) r = Some es).
         { unfold read_manifest, chosen_manifest. unfold exists_at in Ex.
           destruct (files w (mf_path r)); [discriminate|]. rewrite Hleg. unfold manifest_usable.
@@ -578,7 +609,7 @@ Section After.
               by (apply filter_In; auto). rewrite Ef in Hin. exact Hin.
           - reflexivity. }
         assert (Hmf : files w' (mf_path r) = Some (new_manifest r (per_root roots D i r))).
-        { rewrite (files_after_mf i r Hn). rewrite Hp. simpl. rewrite orb_true_r. reflexivity. }
+        { rewrite (files_after_mf i r Hn). unfold should_write. rewrite Hp. simpl. rewrite orb_true_r. reflexivity. }
         unfold read_manifest, chosen_manifest. rewrite Hmf. unfold new_manifest, manifest_usable.
         rewrite N.eqb_refl, str_eqb_refl. cbn [andb]. rewrite entries_same_refl. reflexivity.
       + assert (Hp : per_root roots D i r = []).
@@ -589,9 +620,15 @@ Section After.
           apply filter_In in Hin as [Hd Hi].
           assert (existsb (fun d => idx_is (best_root_idx roots (dtarget d) (dpath d)) i) D = true)
             by (apply existsb_exists; exists d; auto). congruence. }
-        rewrite (files_after_mf i r Hn), Hp.
-        destruct (exists_at (files w) (mf_path r) || negb (is_nil []) || root_had_changes roots pl i); [|reflexivity].
-        unfold new_manifest, manifest_usable. rewrite N.eqb_refl, str_eqb_refl. reflexivity.
+        pose proof (files_after_mf i r Hn) as Hmf.
+        destruct (should_write (files w) roots D pl i r) eqn:Es.
+        * rewrite Hmf, Hp. unfold new_manifest, manifest_usable. rewrite N.eqb_refl, str_eqb_refl. reflexivity.
+        * rewrite Hmf. unfold should_write in Es.
+          apply orb_false_iff in Es as [Es Hls]. apply orb_false_iff in Es as [Es _]. apply orb_false_iff in Es as [Ex _].
+          rewrite <- Hls. apply legacy_stale_ext.
+          -- rewrite Hmf. unfold exists_at in Ex. destruct (files w (mf_path r)); [discriminate|reflexivity].
+          -- apply files_after_manifest_path; [apply legacy_path_is_manifest|].
+             intros r' _ E. symmetry in E. revert E. apply legacy_not_mf.
     - apply IH. intros j r' Hj. replace (S i + j)%nat with (i + S j)%nat by lia. apply H. exact Hj.
   Qed.
 
